@@ -112,7 +112,8 @@ PROPS = {
         theorems=['loop_spec', 'tie_tx_count', 'tie_emit_event', 'tie_setup_exec', 'tie_cumulative_log_count', 'fact_translated_all', 'C13_txIndex', 'C13_receipt_index', 'C13_logIndex', 'C13_cumulativeGas', 'C13_status', 'C13_contract',
                   'C13_inv_block', 'C13_endBlock_total', 'inv_step', 'fact_log_index_restored',
                   'C13_bloom_exact', 'C13_bloom_covers', 'C13_bloom_union', 'C13_block_bloom_is_union', 'C13_block_bloom_bits', 'C13_block_bloom_order', 'C13_bloom_fits', 'testBit_logsBloom', 'C13_create_roundtrip', 'C13_create_preimage_injective', 'C13_create_address_injective', 'C17_registry_preimages_distinct', 'decodeNat_rlpNat', 'ofBE_beBytes'],
-        engines=[dict(name='block', test='TestEngineBlock', quick=500, thorough=6000, thorough_seeds=3)],
+        engines=[dict(name='block', test='TestEngineBlock', quick=500, thorough=6000, thorough_seeds=3),
+                 dict(name='indexer', test='TestEngineIndexer', quick=40, thorough=600, thorough_seeds=2, no_model=True, own_oracles_only=True)],   # oracle C13-served-receipt-numbering only: transaction index, log indices and cumulative gas as the indexer and the JSON-RPC backend serve them for blocks with refused / dropped / failed transactions in between
         rule=BLOCK_RULE, assumptions=BLOCK_ASSUME + ['bloom filters: the theorems (exactly the own logs, union, order-independence, 2048 bits) hold for any hash function; that the code computes the same function is the correspondence of the `bloom` lines (Lean Keccak-256 on the logs of the real receipts of every block vs the receipts\' Bloom fields and the block_bloom event), plus the Go-side oracle block-bloom'],
     ),
     'C03': dict(
